@@ -20,7 +20,7 @@ func (c16) Budget(tier string) (int, int) {
 	if tier == "thorough" {
 		return 60000000, 600
 	}
-	return 50000, 25
+	return 50000, 90
 }
 func (c16) Rule() string {
 	return "seeded histories of 1-8 operations. Appending functions (ReadStringBytes, UnescapeStringContent, StdLibCompatibleStringBytes) run with a dirty destination (fault D-dirty: existing contents of length 0/1/5/37 that are an ASCII pattern or end in the middle of a multi-byte UTF-8 sequence, poisoned spare capacity of 0,1,2,3,4,len-1,len,len+1,4*len+16,len+1024 bytes - all 40 combinations enumerated per (function, input) in the thorough tier) and with an empty one: success and prefix++result must agree. Scratch functions (ReadString, DecodeString) run with nil / empty / dirty / too-small scratch that is reused by later operations. Every exported function runs on inputs allocated with poisoned spare capacity whose whole [:cap] is compared afterwards (also after failing calls). Fault X-overwrite: after an operation returns, its input (incl. spare capacity), scratch and destination are overwritten; every string and tree returned so far is re-compared with its snapshot after every later step. Non-trivial: a fault fired; distinct = distinct hashes of (operation, document class, destination config, outcome) sequences."
